@@ -35,13 +35,24 @@ def fill_values(rs, n, cls):
         x = np.zeros(n)
     elif cls == "unif":
         x = np.clip(rs.uniform(0, 1, n), 1e-9, 1 - 1e-9)
+    elif cls == "constant":
+        x = np.full(n, 2.5)
+    elif cls == "ramp":
+        x = 1.5 + 0.25 * np.arange(n)
+    elif cls == "ramp_tail":
+        # ordinary values ending in a straight stretch (gap-filled record)
+        x = np.exp(rs.normal(0, 1, n)) + 2.0
+        k = min(n, 7)
+        if k:
+            x[n - k:] = np.linspace(3.0, 4.0, k)
     else:
         x = rs.uniform(-5, 5, n)
     return x.astype(np.float64)
 
 
 VALUE_CLASSES = ["finite", "finite", "nan_some", "nan_all", "inf", "negative",
-                 "huge", "zeros", "unif", "other"]
+                 "huge", "zeros", "unif", "other", "constant", "ramp",
+                 "ramp_tail"]
 
 
 def flow_grid(cs, rs, nr, nc, lab, cyclic):
@@ -136,8 +147,11 @@ def build_pool(cs, ctx):
         step = cs.choice(f"t{j}.step", [[10, 60, 300], [300, 1800, 7200],
                                         [3600, 86400, 864000]])
         secs = np.cumsum(rs.choice(step, size=n)) if n else np.zeros(0)
-        t = pd.to_datetime("2001-03-01 00:10:00") + \
-            pd.to_timedelta(secs, unit="s")
+        base = cs.choice(f"t{j}.base", ["2001-03-01 00:10:00",
+                                        "2001-03-01 00:10:00",
+                                        "2041-06-01 00:10:00",
+                                        "1899-12-31 21:50:00"])
+        t = pd.to_datetime(base) + pd.to_timedelta(secs, unit="s")
         unit = cs.choice(f"t{j}.unit", ["ns", "s", "us", "ns"])
         try:
             t = t.as_unit(unit)
@@ -651,12 +665,24 @@ def big_catalogue():
     add("sutils.acf", lambda rs, n: sutils.acf(rs.normal(0, 1, n), maxlag=5))
 
     def var2h(rs, n):
-        secs = np.cumsum(rs.choice([60, 300, 1800, 7200], size=n))
-        t = (pd.to_datetime("2001-03-01 00:10:00") +
-             pd.to_timedelta(secs, unit="s")).as_unit("ns")
-        return dutils.var2h(pd.Series(rs.uniform(0, 1, n), index=t),
-                            display=bool(rs.randint(2)),
-                            nbsec_per_period=int(rs.choice([3600, 1800])))
+        out = []
+        # a dense record, then sparse ones spanning about a century (more
+        # hourly periods than 2^31 seconds) and reaching beyond 2038
+        for base, steps, m in (("2001-03-01 00:10:00", [60, 300, 1800, 7200],
+                                n),
+                               ("1900-01-01 00:10:00",
+                                [86400 * 365, 86400 * 4000], 12),
+                               ("2030-01-01 00:10:00",
+                                [3600, 86400 * 30, 86400 * 2000], 40)):
+            secs = np.cumsum(rs.choice(steps, size=m))
+            t = (pd.to_datetime(base) +
+                 pd.to_timedelta(secs, unit="s")).as_unit("ns")
+            out.append(len(dutils.var2h(
+                pd.Series(rs.uniform(0, 1, m), index=t),
+                display=bool(rs.randint(2)),
+                maxgapsec=int(rs.choice([3600, 432000])),
+                nbsec_per_period=int(rs.choice([3600, 1800])))))
+        return out
     add("dutils.var2h", var2h, 2)
 
     def biggrid(rs, n):
